@@ -224,6 +224,40 @@ Section Reval.
   Qed.
 End Reval.
 
+(** * more read-only operators: scoped/grouped references, list access, predicates, conversions *)
+Section More.
+  Variable ev : val -> M val.
+  Hint Resolve pure_eval_args pure_last_or pure_arg0 pure_contains_m pure_signal_value_m pure_py_str pure_py_sum pure_eval_symbol : pureb.
+
+  Lemma pure_cs_text : pure cs_text. Proof. unfold cs_text, read_global. solve_pure. Qed.
+  Lemma pure_read_named_signal n : pure (read_named_signal ev n). Proof. unfold read_named_signal. solve_pure. Qed.
+  Lemma pure_get_array r : pure (get_array r).
+  Proof. intros st a st' _ H. unfold get_array in H. destruct (nth_error (st_arrays st) r); [|discriminate]. injection H as _ <-. reflexivity. Qed.
+  Hint Resolve pure_cs_text pure_read_named_signal pure_get_array : pureb.
+
+  Lemma pure_op_resolve_scope args : pure (op_resolve_scope ev args). Proof. unfold op_resolve_scope. solve_pure. Qed.
+  Lemma pure_op_resolve_group args : pure (op_resolve_group ev args). Proof. unfold op_resolve_group. solve_pure. Qed.
+  Lemma pure_op_loaded_traces args : pure (op_loaded_traces args). Proof. unfold op_loaded_traces. solve_pure. Qed.
+
+  Section Args.
+    Variable args : list val.
+    Hypothesis Hargs : Forall (fun a => pure (ev a)) args.
+    Lemma pure_ea1 : pure (eval_args ev args). Proof. apply pure_eval_args, Hargs. Qed.
+    Lemma pure_in a : In a args -> pure (ev a). Proof. intros H. rewrite Forall_forall in Hargs. apply Hargs, H. Qed.
+    (** the first operand, then a continuation that may evaluate it *)
+    Lemma pure_arg0_then {B} (k : val -> M B) : (forall a, In a args -> pure (k a)) -> pure (a <- arg0 args ;; k a).
+    Proof.
+      intros Hk. destruct args as [|a r]; [intros st x st' _ H; discriminate|].
+      intros st x st' Hok H. apply (Hk a (or_introl eq_refl) st x st' Hok H).
+    Qed.
+    Lemma pure_nth_then {B} n (k : val -> M B) e : (forall a, In a args -> pure (k a)) -> pure (a <- of_opt (nth_error args n) e ;; k a).
+    Proof.
+      intros Hk. destruct (nth_error args n) as [a|] eqn:E; [|intros st x st' _ H; discriminate].
+      intros st x st' Hok H. apply (Hk a (nth_error_In _ _ E) st x st' Hok H).
+    Qed.
+  End Args.
+End More.
+
 (** * the fragment with @ *)
 Definition roa_op (o : op) : bool := ro_op o || match o with OReval => true | _ => false end.
 Fixpoint is_roa (e : val) : bool :=
